@@ -70,7 +70,7 @@ def gen_cases(tier, seed):
     for i in range(n):
         cases.append({"kind": "taint", "archs": archs[i::n], "seed": env.subseed(seed, "c06", i), "world": "f64",
                       "cost": 3})
-    for i in range(8 if tier == "quick" else 32):
+    for i in range(8 if tier == "quick" else 100):
         cases.append({"kind": "triangular", "seed": env.subseed(seed, "c06tri", i), "world": "f64",
                       "n": 6 if tier == "quick" else 20, "cost": 2})
     return cases
